@@ -166,12 +166,19 @@ def run_property(prop, tier='quick', seed=0, replay=None):
     fault = None
     try:
         run.build()
-        run.generate()
-        if not run.ctx.obligations and not getattr(run.mod, 'ALLOW_NO_SMT', False):
-            raise VCError('zero obligations generated')
-        run.discharge()
-        if getattr(run.mod, 'ALLOW_NO_SMT', False) and not run.static:
-            raise VCError('zero obligations generated (not even static scans)')
+        try:
+            run.generate()
+            if not run.ctx.obligations and not getattr(run.mod, 'ALLOW_NO_SMT', False):
+                raise VCError('zero obligations generated')
+            run.discharge()
+            if getattr(run.mod, 'ALLOW_NO_SMT', False) and not run.static:
+                raise VCError('zero obligations generated (not even static scans)')
+        except VCError as e:
+            # out of reach / contract drift: undecided for the prover.  The contracts are still evaluated on the real code
+            # below: a concrete failing input of the real function is a replayed violation whatever the prover could do.
+            fault = ('undecided', 'VCError: %s' % e)
+            status = 2
+            run.results = []
         if not os.environ.get('VERIF_NO_CONCRETE'):
             run.crosscheck()
         if hasattr(run.mod, 'bounded_checks') and (tier == 'thorough' or getattr(run.mod, 'BOUNDED_IN_QUICK', False)):
@@ -261,7 +268,8 @@ def run_property(prop, tier='quick', seed=0, replay=None):
                 known.append((None, hit[0]))
             else:
                 bounded_viol.append((name, v))
-    if vacuous or disagree:
+    # a vacuous exit canary next to a refuted obligation is explained by it (the failed assertion is assumed afterwards)
+    if disagree or (vacuous and not violations and not static_fail and not bounded_viol):
         status = max(status, 3)
     if unknown and status == 0:
         status = 2
